@@ -39,7 +39,7 @@ package x25519
 //@   requires mag(*y, CANON)
 //@   modifies *outX
 //@   ensures mag(*outX, RED)
-//@   ensures cong(fval(*outX), (1 + fval(*y)) * pow(1 - fval(*y) + 2 * P, P - 2), P)
+//@   ensures cong(fval(*outX), (1 + fval(*y)) * pow(1 - fval(*y), P - 2), P)
 
 //@ func EdPublicKeyToX25519(publicKey)
 //@   requires len(publicKey) >= 32
@@ -47,7 +47,7 @@ package x25519
 //@   ensures result1 == decodable(bytesOf(publicKey[0:32]))
 //@   ensures !result1 ==> result0 == nil
 //@   ensures result1 ==> (len(result0) == 32 && fresh(result0) && le(result0[0:32]) < P)
-//@   ensures result1 ==> le(result0[0:32]) == ((1 + le(publicKey[0:32]) % (1<<255)) * pow(1 - le(publicKey[0:32]) % (1<<255) + 2 * P, P - 2)) % P
+//@   ensures result1 ==> le(result0[0:32]) == ((1 + le(publicKey[0:32]) % (1<<255)) * pow(1 - le(publicKey[0:32]) % (1<<255), P - 2)) % P
 
 // X25519(scalar, point): error exactly for a wrong length or (generic path) an all-zero result.
 // When point is the exported Basepoint slice the Edwards fast path is taken.
